@@ -30,3 +30,28 @@ def merge_mech(work, V, n=5, cfgs=(('sweep', 'MC_Merge_sweep.cfg'), ('tokens', '
     info.append({'module': 'MergeMech', 'cfg': 'MC_Merge_addto_noenv.cfg (regression: add_to without the environment assumption)', 'distinct_states': r['distinct'],
                  'violation': r['violation'], 'expected_violation': 'AddDisjoint'})
     return info
+
+
+def int_value(work, V, cfg='MC_IntValue.cfg', limit=6000):
+    """IntValue.tla: model-check IntValue(Lex(Spell(n))) = n, then replay every written form into the real
+    __get_matches / __get_int_value and compare token count and value (advisory)."""
+    r = tlc.run(work, 'IntValue', cfg=cfg, dump=True, timeout=1200)
+    if not r['ok']:
+        V.note('mechanism-drift: IntValue/%s violates %s at design level' % (cfg, r['violation']))
+    finals = {}
+    for st in tlc.read_dump(r['dump'], where='pc = "done"'):
+        finals[st['text']] = (len(st['toks']), st['val'])
+    keys = sorted(finals)
+    if len(keys) > limit:
+        step = len(keys) / float(limit)
+        keys = [keys[int(i * step)] for i in range(limit)]
+    cases = [{'api': 'intvalue', 'text': k} for k in keys]
+    obs = pool.run_cases(cases, init_name='number', batch=300, timeout=20.0)
+    drift = 0
+    for k, o in zip(keys, obs):
+        want = finals[k]
+        if (len(o.get('matches', [])), o.get('value')) != (want[0], str(want[1])):
+            drift += 1
+            if drift <= 2:
+                V.note('mechanism-drift: __get_int_value(%r): model %s, code %s' % (k, want, o))
+    return [{'module': 'IntValue', 'cfg': cfg, 'distinct_states': r['distinct'], 'violation': r['violation'], 'forms_replayed_into_code': len(cases), 'drift': drift}]
